@@ -292,8 +292,19 @@ def _command_cfg(cmd: dict, wd: str, idx: int, wraps_version: int, supported=())
     if c == "loadKeyBlob":
         internal = cmd["key_wrap_id"] % 2 == 0
         wrap = {1: (16, 17), 2: (18, 19)}[wraps_version][0 if internal else 1]
-        return {"loadKeyBlob": {"offset": hex(cmd["offset"]), "wrappingKeyId": "NXP_CUST_KEK_INT_SK" if internal else "NXP_CUST_KEK_EXT_SK",
-                                "file": datafile(bytes(cmd["data"]))}}, dict(cmd, key_wrap_id=wrap)
+        body = {"offset": hex(cmd["offset"]), "wrappingKeyId": "NXP_CUST_KEK_INT_SK" if internal else "NXP_CUST_KEK_EXT_SK"}
+        pick = hashlib.sha256(b"blob%d:" % idx + bytes(cmd["data"])).digest()
+        if pick[0] % 2:
+            # the key blob as hexadecimal text (`plainInput: hex`): every byte counts, leading zero bytes too
+            fn = "blob_%d.txt" % idx
+            with open(os.path.join(wd, fn), "w", newline="") as f:
+                f.write(bytes(cmd["data"]).hex() if pick[1] % 2 else bytes(cmd["data"]).hex().upper())
+            body.update(file=fn, plainInput="hex")
+        else:
+            body["file"] = datafile(bytes(cmd["data"]))
+            if pick[1] % 2:
+                body["plainInput"] = "bin"
+        return {"loadKeyBlob": body}, dict(cmd, key_wrap_id=wrap)
     if c == "configureMemory":
         return {"configureMemory": {"configAddress": hex(cmd["address"]), "memoryId": cmd["memory_id"]}}, cmd
     if c == "fillMemory":
@@ -342,6 +353,8 @@ def _build_from_config(case, o: Oracle, roots, used, isk, user_data, commands, s
                 o.label("cfg_data:" + next(k for k in ("file", "values", "value") if k in body))
                 if body.get("values", None) == 0 and not isinstance(body.get("values"), str):
                     o.label("cfg_data:values_number_zero")
+            elif c["c"] == "loadKeyBlob":
+                o.label("cfg_keyblob:" + body.get("plainInput", "default") + (":leading_zero" if bytes(c["data"])[:1] == b"\0" else ""))
             elif c["c"] in ("loadCMAC", "loadHashLocking"):
                 o.label("cfg_auth_load:" + ("own_name" if c["c"] in entry else "attribute"))
     if not cfg_cmds:
